@@ -599,6 +599,28 @@ func c11attest(c *Ctx, p *load.Program) {
 				goTbl[name] = r
 			}
 		}
+		// a field filled in place: copy(result.F[:], payload[a:b])
+		eachInstr(fn, func(i ssa.Instruction) {
+			cp, ok := i.(*ssa.Call)
+			if !ok || facts.CalleeName(&cp.Call) != "copy" {
+				return
+			}
+			dst, ok := cp.Call.Args[0].(*ssa.Slice)
+			if !ok {
+				return
+			}
+			fa, ok := dst.X.(*ssa.FieldAddr)
+			if !ok || fa.X != ssa.Value(s.Instr.(*ssa.Alloc)) {
+				return
+			}
+			if src, ok := cp.Call.Args[1].(*ssa.Slice); ok && src.X == fn.Params[0] {
+				lo, ok1 := constInt(src.Low)
+				hi, ok2 := constInt(src.High)
+				if ok1 && ok2 {
+					goTbl[fieldOfAddr(fa).Name()] = [2]int64{lo, hi}
+				}
+			}
+		})
 	}
 	// chain id slice: binary.BigEndian.Uint16(payload[a:b]) compared with ChainIDAlephium
 	eachInstr(fn, func(i ssa.Instruction) {
